@@ -231,7 +231,7 @@ def toErrorParams (cfg : Plumb.Cfg) (ps : List Param) : List Param :=
 open Plumb in
 def toErrorTm (cfg : Plumb.Cfg) (ps0 : List Param) : Tm :=
   let ps := toErrorParams cfg ps0
-  .lam [{ name := errName, ty := .val 1000000 }, fBinder [ps]] (.lam (binders ps) (.call fName [names ps]))
+  .lam [{ name := errName, ty := .val 1000000 }, fBinder [ps] 1] (.lam (binders ps) (.call fName [names ps] true))
 
 open Plumb in
 /-- compile prediction for toerror: the call `f(ps…)` resolves, the final `return …, err` still sees
